@@ -1,0 +1,170 @@
+//go:build verif
+
+// Contracts for govc (see /verif/DESIGN.md). Comment-only file: with the
+// build tag off it is not part of the build, with it on it adds no code.
+
+package queue
+
+//@ extern (berty.tech/weshnet/v2/internal/queue.MetricsTracer[T]).ItemQueued(t, name, item)
+//@   noeffect
+//@ extern (berty.tech/weshnet/v2/internal/queue.MetricsTracer[T]).ItemPop(t, name, item)
+//@   noeffect
+
+//@ # ======================= SimpleQueue =======================
+//@ # abstract view: the sequence lseq(q.list)[0 .. llen(q.list))
+//@ guarded SimpleQueue.list by mu for C15
+//@ guarded SimpleQueue.signal by mu send for C15
+
+//@ func NewSimpleQueue
+//@   for C15
+//@   ensures [C15.simple.new] fresh(result) && result.list != nil && llen(result.list) == 0 && unlocked(addr(result.mu))
+//@   ensures [C15.wakeup.buffered] chancap(result.signal) >= 1
+
+//@ func (*SimpleQueue[T]).Add
+//@   for C15
+//@   requires q != nil && q.list != nil && q.metrics != nil && unlocked(addr(q.mu))
+//@   modifies lseq(q.list), llen(q.list), lockstate(addr(q.mu))
+//@   ensures [C15.simple.add] llen(q.list) == old(llen(q.list)) + 1 && lseq(q.list) == store(old(lseq(q.list)), old(llen(q.list)), m)
+//@   ensures [C15.simple.add.unlock] unlocked(addr(q.mu))
+//@   ensures [C15.wakeup.signalled] sends(q.signal) == old(sends(q.signal)) + 1
+
+//@ func (*SimpleQueue[T]).Pop
+//@   for C15
+//@   requires q != nil && q.list != nil && q.metrics != nil && unlocked(addr(q.mu)) && llen(q.list) >= 0
+//@   modifies lseq(q.list), llen(q.list), lremoved(q.list), lremcount(q.list), lockstate(addr(q.mu))
+//@   ensures [C15.simple.pop.head] old(llen(q.list)) > 0 ==> ok && m == old(lseq(q.list))[0] && llen(q.list) == old(llen(q.list)) - 1
+//@     && (forall i {lseq(q.list)[i]} :: 0 <= i && i < llen(q.list) ==> lseq(q.list)[i] == old(lseq(q.list))[i + 1])
+//@   ensures [C15.simple.pop.empty] old(llen(q.list)) == 0 ==> !ok && llen(q.list) == 0 && lremcount(q.list) == old(lremcount(q.list))
+//@   ensures [C15.simple.pop.unlock] unlocked(addr(q.mu))
+
+//@ func (*SimpleQueue[T]).WaitForItem
+//@   for C15
+//@   requires q != nil && q.list != nil && q.metrics != nil && ctx != nil && unlocked(addr(q.mu))
+//@   modifies lseq(q.list), llen(q.list), lremoved(q.list), lremcount(q.list), lockstate(addr(q.mu)), cancelled(ctx)
+//@   ensures [C15.wait.item] ok ==> item == lremoved(q.list) && lremcount(q.list) == old(lremcount(q.list)) + 1
+//@   ensures [C15.wait.cancel] !ok ==> cancelled(ctx) && lremcount(q.list) == old(lremcount(q.list))
+//@   ensures [C15.wait.unlock] unlocked(addr(q.mu))
+//@   loop 0 invariant locked(addr(q.mu)) && lremcount(q.list) == old(lremcount(q.list)) && (old(cancelled(ctx)) ==> cancelled(ctx))
+
+//@ # FIFO / exactly once, as lemmas over the view: what was added at the tail is popped after everything before it
+//@ lemma C15.fifo: forall s (Array Int Ref), n, x Ref :: n >= 0 ==> select(store(s, n, x), n) == x
+//@     && (forall i :: 0 <= i && i < n ==> select(store(s, n, x), i) == select(s, i))
+//@   for C15
+
+//@ # ======================= PriorityQueue =======================
+//@ guarded PriorityQueue.items by muMessages rw for C15
+//@ spec func ctr(x Ref) Int
+//@ extern (T).Counter(x) (c)
+//@   ensures c == ctr(x)
+//@ extern (berty.tech/weshnet/v2/internal/queue.ICounter).Counter(x) (c)
+//@   ensures c == ctr(x)
+
+//@ func (*PriorityQueue[T]).Len
+//@   for C15
+//@   requires pq != nil && rlocked(addr(pq.muMessages))
+//@   ensures l == len(pq.items)
+
+//@ func (*PriorityQueue[T]).Less
+//@   for C15
+//@   safety
+//@   requires pq != nil && rlocked(addr(pq.muMessages)) && 0 <= i && i < len(pq.items) && 0 <= j && j < len(pq.items) && pq.items[i] != nil && pq.items[j] != nil
+//@   ensures [C15.prio.less] result <==> ctr(pq.items[i]) < ctr(pq.items[j])
+
+//@ func (*PriorityQueue[T]).Swap
+//@   for C15
+//@   safety
+//@   requires pq != nil && locked(addr(pq.muMessages)) && 0 <= i && i < len(pq.items) && 0 <= j && j < len(pq.items)
+//@   modifies elems(pq.items)
+//@   ensures [C15.prio.swap] pq.items[i] == old(pq.items[j]) && pq.items[j] == old(pq.items[i])
+//@     && (forall k {pq.items[k]} :: 0 <= k && k < len(pq.items) && k != i && k != j ==> pq.items[k] == old(pq.items[k]))
+//@   ensures pq.items == old(pq.items)
+
+//@ func (*PriorityQueue[T]).Push
+//@   for C15
+//@   safety
+//@   requires pq != nil && pq.metrics != nil && locked(addr(pq.muMessages))
+//@   modifies pq.items
+//@   ensures [C15.prio.push] len(pq.items) == old(len(pq.items)) + 1 && pq.items[old(len(pq.items))] == x
+//@     && (forall k {pq.items[k]} :: 0 <= k && k < old(len(pq.items)) ==> pq.items[k] == old(pq.items[k]))
+
+//@ func (*PriorityQueue[T]).Pop
+//@   for C15
+//@   safety
+//@   requires pq != nil && pq.metrics != nil && locked(addr(pq.muMessages))
+//@   modifies pq.items, elems(pq.items)
+//@   ensures [C15.prio.pop] old(len(pq.items)) > 0 ==> item == old(pq.items[len(pq.items) - 1]) && len(pq.items) == old(len(pq.items)) - 1
+//@     && (forall k {pq.items[k]} :: 0 <= k && k < len(pq.items) ==> pq.items[k] == old(pq.items[k]))
+//@   ensures [C15.prio.pop.empty] old(len(pq.items)) == 0 ==> item == nil && len(pq.items) == 0
+
+//@ # ---------- heap level: container/heap is ASSUMED correct given a correct heap.Interface
+//@ # (Less/Swap/Push/Pop above are verified against that interface); the abstract state of
+//@ # the queue is the bag hbag(pq) of pending items with hsize(pq) == len(pq.items).
+//@ ghost hbag(Ref) (Array Ref Int)
+//@ ghost hsize(Ref) Int
+//@ pred pqinv(pq) = pq != nil && as(pq, "*PriorityQueue").metrics != nil && len(as(pq, "*PriorityQueue").items) == hsize(pq) && hsize(pq) >= 0
+//@     && (forall y Ref {hbag(pq)[y]} :: hbag(pq)[y] >= 0)
+
+//@ extern container/heap.Init(h)
+//@   ensures true
+//@ extern container/heap.Push(h, x)
+//@   requires pqinv(h)
+//@   requires [C15.prio.heap-under-lock] locked(addr(as(h, "*PriorityQueue").muMessages))
+//@   modifies hbag(h), hsize(h), as(h, "*PriorityQueue").items
+//@   ensures hsize(h) == old(hsize(h)) + 1 && hbag(h) == store(old(hbag(h)), x, old(hbag(h))[x] + 1) && pqinv(h)
+//@ extern container/heap.Pop(h) (x)
+//@   requires pqinv(h) && hsize(h) > 0
+//@   requires [C15.prio.heap-under-lock] locked(addr(as(h, "*PriorityQueue").muMessages))
+//@   modifies hbag(h), hsize(h), as(h, "*PriorityQueue").items
+//@   ensures old(hbag(h))[x] > 0 && (forall y Ref {old(hbag(h))[y]} :: old(hbag(h))[y] > 0 ==> ctr(x) <= ctr(y))
+//@   ensures hsize(h) == old(hsize(h)) - 1 && hbag(h) == store(old(hbag(h)), x, old(hbag(h))[x] - 1) && pqinv(h)
+
+//@ func NewPriorityQueue
+//@   for C15
+//@   requires tracer != nil
+//@   ensures [C15.prio.new] fresh(result) && len(result.items) == 0 && result.metrics == tracer && unlocked(addr(result.muMessages))
+
+//@ func (*PriorityQueue[T]).Add
+//@   for C15
+//@   requires pqinv(pq) && unlocked(addr(pq.muMessages))
+//@   modifies hbag(pq), hsize(pq), pq.items, lockstate(addr(pq.muMessages))
+//@   ensures [C15.prio.add] hsize(pq) == old(hsize(pq)) + 1 && hbag(pq) == store(old(hbag(pq)), m, old(hbag(pq))[m] + 1) && pqinv(pq)
+//@   ensures [C15.prio.add.unlock] unlocked(addr(pq.muMessages))
+
+//@ func (*PriorityQueue[T]).Next
+//@   for C15
+//@   requires pqinv(pq) && unlocked(addr(pq.muMessages))
+//@   modifies hbag(pq), hsize(pq), pq.items, lockstate(addr(pq.muMessages))
+//@   ensures [C15.prio.next.min] old(hsize(pq)) > 0 ==> old(hbag(pq))[item] > 0
+//@     && (forall y Ref {old(hbag(pq))[y]} :: old(hbag(pq))[y] > 0 ==> ctr(item) <= ctr(y))
+//@     && hsize(pq) == old(hsize(pq)) - 1 && hbag(pq) == store(old(hbag(pq)), item, old(hbag(pq))[item] - 1)
+//@   ensures [C15.prio.next.empty] old(hsize(pq)) == 0 ==> item == nil && hsize(pq) == 0 && hbag(pq) == old(hbag(pq))
+//@   ensures [C15.prio.next.unlock] unlocked(addr(pq.muMessages)) && pqinv(pq)
+
+//@ func (*PriorityQueue[T]).Size
+//@   for C15
+//@   requires pqinv(pq) && unlocked(addr(pq.muMessages))
+//@   modifies lockstate(addr(pq.muMessages))
+//@   ensures [C15.prio.size] l == hsize(pq) && unlocked(addr(pq.muMessages))
+
+//@ # NextAll: cb is called on every pending item, in non-decreasing counter order; on success the queue is empty
+//@ ghost ptrace() (Array Int Ref)
+//@ ghost pcalls() Int
+//@ extern pqcallback(next) (err)
+//@   modifies ptrace, pcalls
+//@   ensures pcalls == old(pcalls) + 1 && ptrace == store(old(ptrace), old(pcalls), next)
+
+//@ func (*PriorityQueue[T]).NextAll
+//@   for C15
+//@   calls cb as pqcallback
+//@   requires pqinv(pq) && unlocked(addr(pq.muMessages)) && cb != nil
+//@   modifies hbag(pq), hsize(pq), pq.items, lockstate(addr(pq.muMessages)), ptrace, pcalls
+//@   ensures [C15.prio.nextall.all] ret0 == nil ==> hsize(pq) == 0 && pcalls == old(pcalls) + old(hsize(pq))
+//@   ensures [C15.prio.nextall.order] forall i {ptrace[i]} :: old(pcalls) <= i && i + 1 < pcalls ==> ctr(ptrace[i]) <= ctr(ptrace[i + 1])
+//@   ensures [C15.prio.nextall.frombag] forall i {ptrace[i]} :: old(pcalls) <= i && i < pcalls ==> old(hbag(pq))[ptrace[i]] > 0
+//@   ensures [C15.prio.nextall.unlock] unlocked(addr(pq.muMessages)) && pqinv(pq)
+//@   loop 0 invariant locked(addr(pq.muMessages)) && pqinv(pq) && old(pcalls) <= pcalls && pcalls + hsize(pq) == old(pcalls) + old(hsize(pq))
+//@   loop 0 invariant forall y Ref {hbag(pq)[y]} :: hbag(pq)[y] <= old(hbag(pq))[y]
+//@   loop 0 invariant forall i {ptrace[i]} :: old(pcalls) <= i && i + 1 < pcalls ==> ctr(ptrace[i]) <= ctr(ptrace[i + 1])
+//@   loop 0 invariant forall i {ptrace[i]} :: old(pcalls) <= i && i < pcalls ==> old(hbag(pq))[ptrace[i]] > 0
+//@   loop 0 invariant pcalls > old(pcalls) ==> (forall y Ref {hbag(pq)[y]} :: hbag(pq)[y] > 0 ==> ctr(ptrace[pcalls - 1]) <= ctr(y))
+//@   loop 0 decreases hsize(pq)
